@@ -15,6 +15,8 @@ val app : 'a1 list -> 'a1 list -> 'a1 list
 
 val add : nat -> nat -> nat
 
+val mul : nat -> nat -> nat
+
 val sub : nat -> nat -> nat
 
 val eqb : bool -> bool -> bool
@@ -28,6 +30,8 @@ module Nat :
   val ltb : nat -> nat -> bool
  end
 
+val nth_error : 'a1 list -> nat -> 'a1 option
+
 val rev : 'a1 list -> 'a1 list
 
 val map : ('a1 -> 'a2) -> 'a1 list -> 'a2 list
@@ -39,6 +43,8 @@ val fold_left : ('a1 -> 'a2 -> 'a1) -> 'a2 list -> 'a1 -> 'a1
 val fold_right : ('a2 -> 'a1 -> 'a1) -> 'a1 -> 'a2 list -> 'a1
 
 val existsb : ('a1 -> bool) -> 'a1 list -> bool
+
+val forallb : ('a1 -> bool) -> 'a1 list -> bool
 
 val filter : ('a1 -> bool) -> 'a1 list -> 'a1 list
 
@@ -321,3 +327,172 @@ type path =
 val rel_to_cwd : seg list -> path -> path
 
 val portion_after_sep : 'a1 list -> nat -> 'a1 list
+
+type var =
+| VL of nat
+| VG of nat
+
+type fname = nat
+
+type dsite = nat
+
+val var_eqb : var -> var -> bool
+
+val is_glob : var -> bool
+
+type atom_e =
+| ANil
+| ANew
+| AVar of var
+
+type cond =
+| COpaque
+| CNonNil of var
+| CDeref of dsite * var
+| CNot of cond
+| CAnd of cond * cond
+| COr of cond * cond
+
+type stmt =
+| SSkip
+| SSeq of stmt * stmt
+| SAssign of var * atom_e
+| SCall of var option * fname * atom_e list
+| SDeref of dsite * var
+| SIf of cond * stmt * stmt
+| SWhile of cond * stmt
+| SReturn of atom_e
+
+type func = { f_nparams : nat; f_body : stmt }
+
+type program = { p_funcs : func list; p_ginit : bool list }
+
+type value =
+| VNil
+| VPtr
+
+type store0 = (var * value) list
+
+val sget : store0 -> var -> value
+
+val sset : store0 -> var -> value -> store0
+
+val globals_of : store0 -> store0
+
+val locals_of : store0 -> store0
+
+val eval_atom : store0 -> atom_e -> value
+
+type outcome0 =
+| ONormal of store0 * bool list
+| OReturn of value * store0 * bool list
+| OPanic of dsite
+| OOutOfFuel
+
+type cres =
+| CVal of bool * bool list
+| CPanic of dsite
+
+val ask : bool list -> bool * bool list
+
+val eval_cond : store0 -> cond -> bool list -> cres
+
+val bind_params : nat -> value list -> store0
+
+val init_globals : nat -> bool list -> store0
+
+val exec : program -> nat -> stmt -> store0 -> bool list -> outcome0
+
+val run_program : program -> nat -> bool list -> outcome0
+
+val panic_of : outcome0 -> dsite option
+
+type asite =
+| SParam of fname * nat
+| SResult of fname
+| SGlobal of nat
+
+val enc : asite -> site
+
+type prod0 =
+| PNil
+| PNever
+| PSite of asite
+| PStale
+
+val asite_eqb : asite -> asite -> bool
+
+val prod_eqb : prod0 -> prod0 -> bool
+
+val kind_of : prod0 -> kind
+
+val use_ok : prod0 list -> bool
+
+type aset = prod0 list
+
+type env = (var * aset) list
+
+val dflt : var -> aset
+
+val aget : env -> var -> aset
+
+val aput : env -> var -> aset -> env
+
+val prods_of_atom : env -> atom_e -> aset
+
+val mk_trigger : nat -> prod0 -> kind -> trigger
+
+val keys : env -> var list
+
+val subset_b : aset -> aset -> bool
+
+val env_leb : env -> env -> bool
+
+val union : aset -> aset -> aset
+
+val dedup_vars : var list -> var list
+
+val join : env -> env -> env
+
+val join_opt : env option -> env option -> env option
+
+val acond : cond -> env -> ((env * env) * trigger list) * bool
+
+val cond_true : cond -> env -> env
+
+val store_triggers : var -> aset -> trigger list
+
+val arg_triggers : env -> fname -> nat -> atom_e list -> trigger list
+
+val fresh : env -> nat -> bool
+
+val mark_stale : nat -> env -> env
+
+type ares = { a_env : env option; a_trig : trigger list; a_gsafe : bool }
+
+val loop_inv :
+  (env -> ares option) -> cond -> nat -> env -> (env * ares) option
+
+val analyze : nat -> fname -> nat -> stmt -> env -> ares option
+
+val entry_env : fname -> nat -> nat -> env
+
+val analyze_func : nat -> nat -> fname -> func -> (trigger list * bool) option
+
+val analyze_funcs :
+  nat -> nat -> fname -> func list -> (trigger list list * bool) option
+
+val decl_triggers : nat -> bool list -> trigger list
+
+val analyze_program :
+  nat -> program -> ((trigger list * trigger list list) * bool) option
+
+val var_ok : program -> var -> bool
+
+val atom_ok : program -> atom_e -> bool
+
+val cond_ok : program -> cond -> bool
+
+val stmt_ok : program -> stmt -> bool
+
+val wf_program : program -> bool
